@@ -79,6 +79,17 @@ def _int_text(v) -> str:
 		return ("-" if v < 0 else "") + hex(abs(v))
 
 
+def _any_text(v) -> str:
+	"""str(v) for display; a value whose text cannot be produced (an int beyond the int-to-str
+	digit limit inside a tuple, a class whose __str__ raises) is shown as a placeholder naming its type."""
+	if type(v) is int:
+		return _int_text(v)
+	try:
+		return str(v)
+	except Exception:
+		return f"<{type(v).__name__}>"
+
+
 def _format_column(col, max_preview: int | None = None) -> List[str]:
 	"""Returns a list of strings representing that column, truncated for display."""
 	# Use global default if not specified
@@ -117,7 +128,7 @@ def _format_column(col, max_preview: int | None = None) -> List[str]:
 			if isinstance(v, str):
 				out.append(repr(v))
 			else:
-				out.append(str(v))
+				out.append(_any_text(v))
 
 	# Align: numeric right, others left
 	max_len = max(len(s) for s in out) if out else 0
@@ -155,7 +166,7 @@ def _compute_headers(cols, col_indices):
 		col = cols[idx]
 
 		# Display name
-		disp = "" if col._name is None else str(col._name)   # (a label such as 0 or False is a name)
+		disp = "" if col._name is None else _any_text(col._name)   # (a label such as 0 or False is a name)
 		display_names.append(disp)
 
 		# Sanitized dot name
@@ -315,7 +326,7 @@ def _repr_vector(v) -> str:
 	data_width = max(len(s) for s in formatted) if formatted else 0
 	header_width = 0
 	# (a label such as 5 or ('a', 1) is a name too: shown through its text)
-	name_text = v._name if isinstance(v._name, str) or v._name is None else str(v._name)
+	name_text = v._name if isinstance(v._name, str) or v._name is None else _any_text(v._name)
 	if name_text:
 		header_text = repr(name_text) if _needs_quote(name_text) else name_text
 		header_width = len(header_text)
